@@ -6,6 +6,7 @@ import (
 	"sync"
 
 	"go.miragespace.co/specter/kv/aof/proto"
+	"go.miragespace.co/specter/spec/chord"
 	"go.miragespace.co/specter/spec/protocol"
 )
 
@@ -42,6 +43,21 @@ func (d *DiskKV) handleMutation(mut *proto.Mutation) error {
 
 	}
 	return err
+}
+
+// checkMutation reports the error a mutation is known to fail with, without applying it.
+// Only the writer goroutine mutates memKv, so the answer still holds when the mutation is applied.
+func (d *DiskKV) checkMutation(mut *proto.Mutation) error {
+	if mut.GetType() == proto.MutationType_PREFIX_APPEND {
+		exists, err := d.memKv.PrefixContains(context.Background(), mut.GetKey(), mut.GetValue())
+		if err != nil {
+			return err
+		}
+		if exists {
+			return chord.ErrKVPrefixConflict
+		}
+	}
+	return nil
 }
 
 func (d *DiskKV) mutationHandler(fn func(mut *proto.Mutation)) error {
